@@ -1553,6 +1553,10 @@ class H2Connection:
             # to the remote peer. Otherwise, this is a connection error, and so
             # we will re-raise to trigger one.
             if self._stream_is_closed_by_reset(e.stream_id):
+                # Nothing but GOAWAY may be sent on a closed connection.
+                self.state_machine.process_input(
+                    ConnectionInputs.SEND_RST_STREAM
+                )
                 f = RstStreamFrame(e.stream_id)
                 f.error_code = e.error_code
                 self._prepare_for_sending([f])
@@ -1569,6 +1573,9 @@ class H2Connection:
             # is either a stream error or a connection error.
             if self._stream_is_closed_by_reset(e.stream_id):
                 # Closed by RST_STREAM is a stream error.
+                self.state_machine.process_input(
+                    ConnectionInputs.SEND_RST_STREAM
+                )
                 f = RstStreamFrame(e.stream_id)
                 f.error_code = ErrorCodes.STREAM_CLOSED
                 self._prepare_for_sending([f])
